@@ -1035,9 +1035,9 @@ func (e *explorer) scStoppedEarly() bool {
 }
 
 func init() {
-	expl := "schedule explorer over traversal.Operation: DoQuery is a harness callback that parks each query; a generated schedule decides which in-flight query completes next and when AddNodes/Stop happen; between events the harness spins on the VerifSnapshot hook until the operation has reacted (no sleeps). "
+	expl := "schedule explorer over traversal.Operation: DoQuery is a harness callback that parks each query; a generated schedule decides which in-flight query completes next and when AddNodes / AddNode (contact by contact, also into an idle lookup) / Stop happen; between events the harness spins on the VerifSnapshot hook until the operation has reacted (no sleeps). "
 	kit.Register("C02a",
-		expl+"Response graphs of 1..30 addresses advertised under 1..8 IDs each (cloned IDs for distance ties, lying and silent nodes, string/non-string/no token, node filter by address and by ID, data filter). Oracle on the final result set, from the harness's own record of who answered what: <= K members, each answered, passes both filters, keeps its own data, iteration in distance order, no filter-passing responder outside the set strictly closer than a member (or absent while the set is not full). Non-trivial: more than K filter-passing responders, or a completion order different from issue order.",
+		expl+"Response graphs of 1..30 addresses (one case in eight: 60..300 addresses with replies naming up to 30 contacts; one in twelve: a chain of 20..60 ever closer nodes each naming its successor once among 3..16 far contacts) advertised under 1..8 IDs each (cloned IDs for distance ties, lying and silent nodes, string/non-string/no token, node filter by address and by ID, data filter). Oracle on the final result set, from the harness's own record of who answered what: <= K members, each answered, passes both filters, keeps its own data, iteration in distance order, no filter-passing responder outside the set strictly closer than a member (or absent while the set is not full). Non-trivial: more than K filter-passing responders, or a completion order different from issue order.",
 		[]string{"result sets are judged by a validity predicate (ties admit several correct sets)"},
 		func(t *rapid.T) TravSc { return genTravGeneral(t, "C02") },
 		func(sc TravSc, c *kit.Case) *kit.Violation { return runTrav(sc, c, "C02") })
